@@ -63,6 +63,9 @@ MCSeq_hist_quick == SeqsUpTo(QuickHistoryRows \cup QuickFaultRows, 3)
 MCSeq_refine == SeqsUpTo(QuickHistoryRows \cup QuickFaultRows, 2)
 MCSeq_hist3 == SeqsUpTo(HistoryRows \cup FaultRows \cup SamePosRows, 3)
 MCSeq_hist4 == SeqsUpTo(QuickHistoryRows \cup {Row3(G1(1), HET, HET)}, 4)
+\* records WITHOUT the GT key (FORMAT = DP) between ordinary ones, at every position of the history
+NoGtRow == [gt |-> Row3(HET, HOM1, HET).gt, bad |-> FALSE, fmt |-> "nogt"]
+MCSeq_fmt == SeqsUpTo({Row3(HET, HOM1, HET), Row3(HOM0, HET, HOM1), NoGtRow, Row3(MISS, HOM1, HET)}, 3)
 MCSeq_nofault3 == SeqsUpTo(HistoryRows, 3)
 MCSeq_nofault2 == SeqsUpTo(HistoryRows, 2)
 
